@@ -119,6 +119,10 @@ func getAccounts(w http.ResponseWriter, r *http.Request) {
 			return nil, err
 		}
 		options.QueryBuilder, err = buildAccountsFilterQuery(r)
+		if err != nil {
+			// (a parameter that cannot be read is refused; dropping it would list the accounts unfiltered)
+			return nil, err
+		}
 		return pointer.For(ledgerstore.NewGetAccountsQuery(*options)), nil
 	})
 	if err != nil {
